@@ -57,6 +57,8 @@ structure TI (w : World) : Prop where
   sndS : ∀ a, a < nA w → ∀ m x, (m, some x) ∈ (actorAt w a).sysQ → inScope (nA w) x
   sndU : ∀ a, a < nA w → ∀ m x, (m, some x) ∈ (actorAt w a).userQ → inScope (nA w) x
   cur : ∀ a, a < nA w → inScopeO (nA w) (actorAt w a).curSender
+  /-- armed restart timers name an existing supervisor -/
+  tim : ∀ p ∈ w.timers, p.1 < nA w
   behs : ∀ b ∈ w.behs, BehOK b
 
 /-- the fresh actor record `ActorOf` creates -/
@@ -65,7 +67,10 @@ def freshChild (p : Aid) (beh : Nat) : Actor := { beh := beh, parent := some p }
 /-- the primitive updates of the model, with the guards under which the code performs them -/
 inductive Prim : World → World → Prop where
   /-- events, dead letters, timers, flags: the actor table is untouched -/
-  | frame (w w' : World) : w'.actors = w.actors → w'.behs = w.behs → Prim w w'
+  | frame (w w' : World) : w'.actors = w.actors → w'.behs = w.behs → w'.timers = w.timers → Prim w w'
+  /-- `time.AfterFunc` of a restart decision / its firing -/
+  | armTimer (w : World) (s v : Aid) : s < nA w → Prim w { w with timers := w.timers ++ [(s, v)] }
+  | popTimer (w : World) (p : Aid × Aid) (rest : List (Aid × Aid)) : w.timers = p :: rest → Prim w { w with timers := rest }
   /-- bookkeeping of one actor: log, accidents, suspension, runner flag, watchers, graceful flag,
       taking messages out of a queue, and status changes between non-terminated statuses -/
   | upd (w : World) (a : Aid) (f : Actor → Actor) :
@@ -138,7 +143,7 @@ theorem nA_mod (w : World) (a : Aid) (f : Actor → Actor) :
 
 theorem Prim.nA_le {w w' : World} (h : Prim w w') : nA w ≤ nA w' := by
   cases h with
-  | frame _ ha _ => simp [nA, ha]
+  | frame _ ha _ _ => simp [nA, ha]
   | spawn => simp [nA]
   | _ => simp [nA]
 
@@ -149,7 +154,7 @@ theorem Steps.nA_le {w w' : World} (h : Steps w w') : nA w ≤ nA w' := by
 
 theorem Prim.behs_eq {w w' : World} (h : Prim w w') : w'.behs = w.behs := by
   cases h with
-  | frame _ _ hb => exact hb
+  | frame _ _ hb _ => exact hb
   | _ => rfl
 
 theorem Steps.behs_eq {w w' : World} (h : Steps w w') : w'.behs = w.behs := by
@@ -196,7 +201,7 @@ theorem TI_modify (w : World) (a : Aid) (f : Actor → Actor) (h : TI w)
     split
     · rename_i hab; obtain ⟨hab, _⟩ := hab; subst hab; exact s1 hd
     · exact hd
-  refine ⟨?_, ?_, ?_, ?_, ?_, ?_, ?_, h.behs⟩
+  refine ⟨?_, ?_, ?_, ?_, ?_, ?_, ?_, (by intro p hp; rw [hn]; exact h.tim p hp), h.behs⟩
   · intro c hc p hp
     rw [hn] at hc
     have hp' : (actorAt w c).parent = some p := by
@@ -262,10 +267,11 @@ theorem modify_ge (w : World) (a : Aid) (f : Actor → Actor) (h : nA w ≤ a) :
   · subst hia; simp [List.getElem?_eq_none h]
   · simp [hia]
 
-theorem TI_of_eq {w w' : World} (ha : w'.actors = w.actors) (hb : w'.behs = w.behs) (h : TI w) : TI w' := by
+theorem TI_of_eq {w w' : World} (ha : w'.actors = w.actors) (hb : w'.behs = w.behs)
+    (ht : ∀ p ∈ w'.timers, p.1 < nA w) (h : TI w) : TI w' := by
   have hat : ∀ b, actorAt w' b = actorAt w b := by intro b; unfold actorAt; rw [ha]
   have hn : nA w' = nA w := by simp [nA, ha]
-  refine ⟨?_, ?_, ?_, ?_, ?_, ?_, ?_, ?_⟩
+  refine ⟨?_, ?_, ?_, ?_, ?_, ?_, ?_, (by intro p hp; rw [hn]; exact ht p hp), ?_⟩
   · intro c hc p hp; rw [hn] at hc; rw [hat] at hp; rw [hat, hat]; exact h.par c hc p hp
   · intro a hl who s hm; rw [hn] at hl; rw [hat] at hm
     rcases h.msg a hl who s hm with ⟨x, y⟩ | x
@@ -321,7 +327,9 @@ theorem TI_spawn (w : World) (p : Aid) (beh : Nat) (hp : p < nA w)
     · rw [hold b hb hbp]; exact hd
   generalize hw' : ({ w with actors := (w.actors ++ [freshChild p beh]).modify p fun x => { x with children := x.children ++ [nA w] } } : World) = w' at *
   have hbehs : w'.behs = w.behs := by subst hw'; rfl
-  refine ⟨?_, ?_, ?_, ?_, ?_, ?_, ?_, ?_⟩
+  have htim : ∀ p ∈ w'.timers, p.1 < nA w' := by
+    intro p hp; subst hw'; rw [hn]; exact Nat.lt_succ_of_lt (h.tim p hp)
+  refine ⟨?_, ?_, ?_, ?_, ?_, ?_, ?_, htim, ?_⟩
   · intro c hc q hq
     rw [hn] at hc
     by_cases hcn : c = nA w
@@ -404,7 +412,18 @@ theorem TI_spawn (w : World) (p : Aid) (beh : Nat) (hp : p < nA w)
 theorem TI_prim {w w' : World} (hp : Prim w w') (hb : nA w' ≤ ghostBase) (h : TI w) : TI w' := by
   have hbw : nA w ≤ ghostBase := Nat.le_trans hp.nA_le hb
   cases hp with
-  | frame _ ha hbe => exact TI_of_eq ha hbe h
+  | frame _ ha hbe hti => exact TI_of_eq ha hbe (by intro p hp; rw [hti] at hp; exact h.tim p hp) h
+  | armTimer s v hs =>
+    refine TI_of_eq (w := w) rfl rfl ?_ h
+    intro p hp
+    simp only [List.mem_append, List.mem_singleton] at hp
+    rcases hp with hp | hp
+    · exact h.tim p hp
+    · subst hp; exact hs
+  | popTimer p rest hr =>
+    refine TI_of_eq (w := w) rfl rfl ?_ h
+    intro q hq
+    exact h.tim q (by rw [hr]; exact List.mem_cons_of_mem _ hq)
   | upd a f hch hpa hre hst hsq huq hcu =>
     by_cases ha : a < nA w
     · apply TI_modify w a f h
@@ -555,7 +574,7 @@ theorem J_steps {w w' : World} (hs : Steps w w') (h : J w) : J w' := fun hb =>
 theorem Prim.parent_eq {w w' : World} (h : Prim w w') (a : Aid) (ha : a < nA w) :
     (actorAt w' a).parent = (actorAt w a).parent := by
   cases h with
-  | frame _ hact _ => unfold actorAt; rw [hact]
+  | frame _ hact _ _ => unfold actorAt; rw [hact]
   | upd b f _ hpa _ _ _ _ _ =>
     rw [actorAt_mod]; split
     · rename_i hab; obtain ⟨hab, _⟩ := hab; subst hab; exact hpa
@@ -565,6 +584,8 @@ theorem Prim.parent_eq {w w' : World} (h : Prim w w') (a : Aid) (ha : a < nA w) 
     split
     · rename_i hap; subst hap; rfl
     · rw [if_neg (Nat.ne_of_lt ha)]
+  | armTimer => rfl
+  | popTimer => rfl
   | _ => rw [actorAt_mod]; split <;> rfl
 
 theorem Steps.parent_eq {w w' : World} (h : Steps w w') (a : Aid) (ha : a < nA w) :
@@ -577,7 +598,7 @@ theorem Prim.dead_mono {w w' : World} (h : Prim w w') (a : Aid)
     (hd : (actorAt w a).status = .terminated) : (actorAt w' a).status = .terminated := by
   have ha := lt_of_terminated w a hd
   cases h with
-  | frame _ hact _ => unfold actorAt at *; rw [hact]; exact hd
+  | frame _ hact _ _ => unfold actorAt at *; rw [hact]; exact hd
   | upd b f _ _ _ hst _ _ _ =>
     rw [actorAt_mod]; split
     · rename_i hab; obtain ⟨hab, _⟩ := hab; subst hab; exact hst.mpr hd
@@ -588,6 +609,8 @@ theorem Prim.dead_mono {w w' : World} (h : Prim w w') (a : Aid)
     · rename_i hap; subst hap; exact hd
     · rw [if_neg (Nat.ne_of_lt ha)]; exact hd
   | term b _ _ => rw [actorAt_mod]; split <;> first | rfl | exact hd
+  | armTimer => exact hd
+  | popTimer => exact hd
   | _ => rw [actorAt_mod]; split <;> exact hd
 
 theorem Steps.dead_mono {w w' : World} (h : Steps w w') (a : Aid)
